@@ -207,7 +207,11 @@ macro_rules! impl_bop {
                     (self.base_rate * rhs.u() * ca + rhs.base_rate * self.u() * cb)
                         / (rhs.u() * ca + self.u() * cb)
                 };
-                Self::try_new(b, d, u, a)
+                // same renormalisation as the multinomial operators (`Simplex::normalized`): without it the deviation of
+                // b + d + u from 1 that the operands carry (up to a few ulps, accepted by the constructor) is propagated and,
+                // by cumulative fusion, amplified from call to call, and a fold of fusions eventually rejects its own result
+                let s = b + d + u;
+                Self::try_new(b / s, d / s, u / s, a)
             }
 
             /// Computes the averaging belief fusion of `self` and `rhs`.
@@ -229,7 +233,11 @@ macro_rules! impl_bop {
                     u = 2.0 * self.u() * rhs.u() / upu;
                     a = (self.base_rate + rhs.base_rate) / 2.0;
                 }
-                Self::try_new(b, d, u, a)
+                // same renormalisation as the multinomial operators (`Simplex::normalized`): without it the deviation of
+                // b + d + u from 1 that the operands carry (up to a few ulps, accepted by the constructor) is propagated and,
+                // by cumulative fusion, amplified from call to call, and a fold of fusions eventually rejects its own result
+                let s = b + d + u;
+                Self::try_new(b / s, d / s, u / s, a)
             }
 
             /// Computes the weighted b() fusion of `self` and `rhs`.
@@ -258,7 +266,11 @@ macro_rules! impl_bop {
                     u = (ca + cb) * self.u() * rhs.u() / denom;
                     a = (self.base_rate * ca + rhs.base_rate * cb) / (ca + cb);
                 }
-                Self::try_new(b, d, u, a)
+                // same renormalisation as the multinomial operators (`Simplex::normalized`): without it the deviation of
+                // b + d + u from 1 that the operands carry (up to a few ulps, accepted by the constructor) is propagated and,
+                // by cumulative fusion, amplified from call to call, and a fold of fusions eventually rejects its own result
+                let s = b + d + u;
+                Self::try_new(b / s, d / s, u / s, a)
             }
 
             /// Computes the conditionally deduced opinion of `self` by a two length array of conditional opinions `cond`.
